@@ -115,6 +115,12 @@ def run(case):
             noise_model = case["noise"]
     elif nf == "per_channel_model" and nch == 2:
         noise_model = {"red": case["noise"], "green": case["noise2"]}
+        form = case.get("pix_seed", 0) % 3
+        if form:
+            # the same per-channel values as an array labelled along 'illumination', labels in either order
+            order = ["red", "green"] if form == 1 else ["green", "red"]
+            noise_model = xr.DataArray([noise_model[c] for c in order], dims="illumination", coords={"illumination": order})
+            labels.append("noise_labelled_array_" + "_".join(order))
     elif nf == "per_channel_model":
         noise_model = case["noise"]
     okw_model = {}
@@ -293,6 +299,8 @@ def run(case):
     if expect_missing:
         return Outcome(failure("missing_noise_not_reported", "no MissingParameter although neither model nor data carry noise and priors are not all uniform"), True, labels)
     resid = (pub - work)
+    if isinstance(src, xr.DataArray):
+        src = {str(l): float(src.sel(illumination=l)) for l in src.illumination.values}
     if isinstance(src, dict):
         sig = xr.DataArray([src[c] for c in chans], dims="illumination", coords={"illumination": chans})
         z = (resid / sig).values
